@@ -84,7 +84,7 @@ def _block(job):
             done += 1
             total.merge(ctx)
             if ctx.checks > 0:
-                kinds.add(h64(cfg.get("kind"), [o["op"] for o in ops]))
+                kinds.add(h64(machine_cls.history_key(cfg, ops)))
             if i < want_digests:
                 digests[i] = (ops_digest(cfg, ops), ctx.outcome_digest())
             if i < start + 1 and len(samples) < 1:
